@@ -168,7 +168,7 @@ def c08b(ctx):
                       'main tile on axis %d is v // m[%d] * m[%d] with m = _meta_size(level of the same tile)' % (k, k, k),
                       mt, rets[0], fail='main tile on axis %d is %s: not the quotient form v // m[%d] * m[%d] with the '
                       'level\'s own meta size -- tiles of one meta tile map to different locks' % (k, got, k, k))
-        ctx.check(ast.unparse(forms[0].elts[2]).replace(' ', '') == '%s[2]' % P, 'MetaGrid.main_tile:level', 'the level is passed through', mt)
+        ctx.check(same(forms[0].elts[2], '%s[2]' % P), 'MetaGrid.main_tile:level', 'the level is passed through', mt)
     else:
         ctx.ok('TileManager.lock:no-normalisation', 'lock() does not normalise; MetaTile.main_tile_coord is used as is', lk)
 
@@ -308,7 +308,7 @@ def c08d(ctx):
         if not locks:
             continue
         for x in sorted([c for c in fn.walk_all() if isinstance(c, ast.Call) and isinstance(c.func, ast.Attribute) and
-                         unparse(c.func.value) == 'self' and c.func.attr in factories], key=order_key):
+                         same(c.func.value, 'self') and c.func.attr in factories], key=order_key):
             nsites += 1
             ok = any(inside(x, w) and not any(inside(x, it.context_expr) for it in w.items) for w in locks)
             ctx.check(ok, 'BundleV1.%s:%s-constructed-under-lock' % (st.name, x.func.attr),
